@@ -486,16 +486,28 @@ def judge_block(ctx, res):
                       % ("; ".join(m["why"])[:900], json.dumps((m.get("input") or {}).get("prior"))[:200],
                          json.dumps((m.get("input") or {}).get("block"))[:700]))
 
+def open_header_findings():
+    return {f["match"]["corruption"]: f for f in lib.load_known_findings()
+            if f.get("property") == "C05" and f.get("status") == "open" and f.get("match", {}).get("outcome") == "panic"
+            and f["match"].get("corruption") and f["match"].get("panic_contains")}
+
+
+def header_excuse(findings, kind, messages):
+    """The open finding that excuses panics with these messages on a block with this corruption."""
+    f = findings.get(kind)
+    if f and messages and all(f["match"]["panic_contains"] in m for m in messages):
+        return f
+    return None
+
+
 def judge_header_panics(ctx, res, mode, scenarios=None, threads=None):
     """Panics on blocks whose header-level fields cannot be parsed are excused exactly while
     known_findings.json lists (corruption kind, outcome panic, message fragment) as open."""
-    open_f = {f["match"]["corruption"]: f for f in lib.load_known_findings()
-              if f.get("property") == "C05" and f.get("status") == "open" and f.get("match", {}).get("outcome") == "panic"}
+    findings = open_header_findings()
     seen = {}
     for kind, h in sorted((res.get("header_panics") or {}).items()):
-        f = open_f.get(kind)
-        frag = (f or {}).get("match", {}).get("panic_contains")
-        if f and frag and all(frag in m for m in h["messages"]):
+        f = header_excuse(findings, kind, h["messages"])
+        if f:
             lib.known_finding(ctx, "id=%s %s" % (f["id"], f["what"][:300]))
             seen[kind] = h["count"]
             continue
@@ -643,7 +655,8 @@ def run(ctx):
     wkinds = {}
     for s in scenarios:
         wkinds[s["what"]] = wkinds.get(s["what"], 0) + 1
-    if missing or not changes or not internal or not wkinds.get("padded") or not wkinds.get("valid"):
+    hdr_missing = [k for k in HEADER_KINDS if not any(c["block"].get("bad") == k for c in cases) or not wkinds.get("corrupt:hdr:" + k)]
+    if missing or hdr_missing or not changes or not internal or not wkinds.get("padded") or not wkinds.get("valid"):
         raise lib.ToolError("vacuity: classes %s change=%d internal=%d wallet kinds %s" % (classes, changes, internal, wkinds))
 
     ctx.traces = len(cases) + len(scenarios) * len(THREADS)
@@ -767,3 +780,11 @@ def selftest(ctx):
         raise lib.ToolError("selftest: a perturbed wallet prediction was not reported")
     # model side: the two safeguards of BatchRunner.tla are needed (checked inside model_check)
     lib.log("selftest ok (scan_cached_blocks): perturbed position and perturbed verdict rejected")
+    # the known-finding filter excuses exactly (kind, message fragment) of an open entry
+    fnd = {"txid_len": {"id": "x", "match": {"corruption": "txid_len", "outcome": "panic", "panic_contains": "copy_from_slice"}}}
+    if header_excuse(fnd, "txid_len", ["copy_from_slice: source slice length (31)"]) is None \
+            or header_excuse(fnd, "txid_len", ["index out of bounds"]) is not None \
+            or header_excuse(fnd, "hash_len", ["copy_from_slice: x"]) is not None \
+            or header_excuse({}, "txid_len", ["copy_from_slice: x"]) is not None:
+        raise lib.ToolError("selftest: the known-finding filter does not excuse exactly the listed (kind, message)")
+    lib.log("selftest ok: a panic of another kind / with another message / with no open entry is not excused")
